@@ -1,13 +1,15 @@
 import Cpppo.Model.Wire
-import Cpppo.Model.ClientRx
+import Cpppo.Model.ClientRxSpec
 /-!
 driver for the client receive model (C13)
 
-  `crx <pipe|sync|syncold> <depth> <index> <issued> <events>`
+  `crx <pipe|sync|syncold> <depth> <index> <issued> <events> [<k>:<whole stream hex>]`
   `prx <n|e> <depth> <use|use|...> <events|events|...>`
 
   issued  `idx:ctxhex:svc,...` or `-`
   events  `,`-separated: a hex chunk, `E` (EOF) or `Q` (nothing within the timeout); `-` = none
+  with the optional last token the answer is followed by `#spec-ok|#spec-nohyp|#spec-differs`: the hypotheses
+  of `exchange_cut_segmented` evaluated on this exchange, and its right-hand side compared with the run
 answers
   `connect:<err>`  or  `<idx>/<rawhex><+|->,...;<ok|err>`   (`+`: `collect` gave a value, `-`: `None`)
   for `prx` one answer per use, joined by `|`: `c<conn>:<number of values>;<ok|err>` or `c<conn>:connect:<err>`;
@@ -46,12 +48,8 @@ def showEnd : End → String
   | .ok => "ok"
   | .error e => showErr e
 
-/-- `collect`'s value is not `None`: data for the reading services on status 0/6, `True` on status 0 -/
-def hasValue (r : Reply) : Bool :=
-  (([0xcc, 0xd2, 0x8e, 0x81].contains r.svc) && (r.status == 0 || r.status == 6)) || r.status == 0
-
 def showRes (r : Res) : String :=
-  s!"{r.iss.idx}/{hexOfBytes r.rpy.raw}{if hasValue r.rpy then "+" else "-"}"
+  s!"{r.iss.idx}/{hexOfBytes r.rpy.raw}{if r.rpy.hasValue then "+" else "-"}"
 
 def showRun (rs : List Res) (e : End) : String :=
   (if rs.isEmpty then "-" else ",".intercalate (rs.map showRes)) ++ ";" ++ showEnd e
@@ -64,21 +62,55 @@ def showUse (fmt : String) : UseOut → String
   | .ran n rs (.error e) => if fmt = "e" then s!"c{n}:?;{showErr e}" else s!"c{n}:{rs.length};{showErr e}"
   | .refused => "refused"
 
+def sameOutcome : Except ConnErr (List Res × End) → Except ConnErr (List Res × End) → Bool
+  | .ok a, .ok b => a == b
+  | .error a, .error b => a == b
+  | _, _ => false
+
+/-- Evaluate the hypotheses of `exchange_cut_segmented` on a real exchange (`full`: the peer's whole stream,
+`k`: the cut, `evs`: what was delivered) and compare the theorem's right-hand side with the model run:
+`#spec-ok`, `#spec-nohyp` (a hypothesis does not hold) or `#spec-differs` (never, by the theorem). -/
+def specVerdict (depth : Nat) (issued : List Iss) (evs : List Ev) (k : Nat) (full : Bytes) : String :=
+  match splitFrames full.length full, afterData evs with
+  | reg :: fs, [t] =>
+    let closed := t == .eof
+    if t = termEv closed ∧ joinData evs = (stream (reg :: fs)).take k ∧ IsRegister reg ∧
+        Served parseFrame fs ∧ AllMatch issued (fs.flatMap (colsOf parseFrame)) then
+      if sameOutcome (exchange parseFrame depth issued evs) (exchangeCutSpec parseFrame issued reg fs k closed)
+      then "#spec-ok" else "#spec-differs"
+    else "#spec-nohyp"
+  | _, _ => "#spec-nohyp"
+
+def crx (api : String) (depth index : Nat) (issued : List Iss) (evs : List Ev) : Option String :=
+  match connect evs with
+  | .error e => some s!"connect:{showConnErr e}"
+  | .ok st => do
+    let (rs, e, _) ←
+      if api = "pipe" then some (pipeline parseFrame depth index issued st)
+      else if api = "sync" then some (synchronous parseFrame issued st)
+      else if api = "syncold" then some (synchronousOld parseFrame issued st)
+      else none
+    pure (showRun rs e)
+
 def handle : List String → Option String
+  | ["crx", api, depth, index, issued, evs, spec] => do
+    let depth ← depth.toNat?
+    let index ← index.toNat?
+    let issued ← parseIssued issued
+    let evs ← parseEvs evs
+    let out ← crx api depth index issued evs
+    match splitOn spec ':' with
+    | [k, full] =>
+      let k ← k.toNat?
+      let full ← bytesOfHex full
+      if index = 0 ∧ api ≠ "syncold" then pure (out ++ specVerdict depth issued evs k full) else none
+    | _ => none
   | ["crx", api, depth, index, issued, evs] => do
     let depth ← depth.toNat?
     let index ← index.toNat?
     let issued ← parseIssued issued
     let evs ← parseEvs evs
-    match connect evs with
-    | .error e => pure s!"connect:{showConnErr e}"
-    | .ok st =>
-      let (rs, e, _) ←
-        if api = "pipe" then some (pipeline parseFrame depth index issued st)
-        else if api = "sync" then some (synchronous parseFrame issued st)
-        else if api = "syncold" then some (synchronousOld parseFrame issued st)
-        else none
-      pure (showRun rs e)
+    crx api depth index issued evs
   | ["prx", fmt, depth, uses, conns] => do
     let depth ← depth.toNat?
     let uses ← (splitOn uses '|').mapM parseIssued
